@@ -85,6 +85,10 @@ claimed = {
          "A subscriber presenting no ID, the ID of any message or a never-issued ID races a publisher; the replayer is the contract (Put stamps and returns the ID-carrying copy, Replay delivers the stamped messages after the presented one that match) whose implementation by FiniteReplayer/ValidReplayer is what C08/C09 decide. Over every interleaving the subscriber's Send sequence is exactly the missed messages followed by the live ones, once each, in Put order, each the ID-carrying copy.",
          "Trusted: go/ssa, executor semantics, z3; sequential consistency of channel and sync.Once operations (Joe shares no plain variable between goroutines; a write by one interpreted thread to memory another reads is simply executed in interleaving order); the schedule space is explored by forking (one path per interleaving class of visible operations, invisible steps commute), NOT by a single solver query over a symbolic schedule: within each interleaving all environment outcomes and topic matches are symbolic and decided by z3. Counterexamples are confirmed natively by repeating the scenario under the real Go scheduler (stress, up to 20000 runs / 20 s) with the counterexample's environment outcomes.",
          "DESIGN.md §5 C04, §3"),
+ "C05": (E1, "bounded symbolic execution of the real sequential data path (go/ssa) + SMT: every cut offset x every publish timeline x symbolic payloads",
+         "What go-sse contributes to the end-to-end property is executed as one symbolic run: real FiniteReplayer/ValidReplayer.Put, Upgrade, getSubscription, Replay through a real Session and Message.WriteTo into bytes, live Send+Flush, the bytes cut at every offset (read error, or handler return at message boundaries), real Connection.read, real resetRequest producing the next request's Last-Event-ID. The assertion compares the client's callback log with the published list from the first received event on. The network and Joe's goroutines are replaced by the stated assumptions (decided for Joe in C03/C04/C06).",
+         "Trusted: as C01/C08/C16; assume-guarantee seams listed under outside_the_claim in the evidence.",
+         "DESIGN.md §5 C05"),
 }
 pending = "check not built yet (engine work in progress; will be decided with the same SSA->SMT technique or declared not applicable)"
 na_reasons = {}
